@@ -22,6 +22,8 @@ from ..tlc import run_tlc, TLCFailure
 MODULE = "C02_PolicyEval"
 QD = 6
 EPS = F(1, 2 ** 30)     # the concrete size of a "rare" weight handed to msdm (TLC only knows it is > 0)
+ZERO = {0: 0.0, 1: 0, 2: np.float64(0)}    # the ways a discount of exactly 0 is handed to msdm
+ABSFLAG = {"bool": bool, "int": int, "npint": np.int64}   # the type is_absorbing answers with
 NEAR1 = {1: 1 - 2.0 ** -20, 2: 0.999999}   # concrete "1 - eps" discounts (TLC only knows they are < 1)
 MENU_ROWS = {}          # K -> list of weight rows over K actions (numerators over 6)
 LIMIT = 2 ** 28         # bound on every integer TLC has to form (its integers are 32-bit)
@@ -51,6 +53,7 @@ MDP_REPS = [
     dict(rep="subclass", labels="mixed", alabels="mixed", explicit_list=False, dist="uniform"),
     dict(rep="quick", labels="str", alabels="tuple", explicit_list=True, dist="dict"),
     dict(rep="matrices", labels="int", alabels="str", explicit_list=False, dist="dict"),
+    dict(rep="quick", labels="int", alabels="int", explicit_list=False, dist="dict_zeros"),
 ]
 # policy representations: a directly tabulated one and a converted one are run for every case
 DIRECT = ["table", "table_perm"]
@@ -353,6 +356,9 @@ FAMS = [
     dict(GN=1, GD=1, PD=2, rewards=(-1, 0, 0), nmax=3),
     dict(GN=9, GD=10, PD=2, rewards=(-2, -1, 0, 1, 2), nmax=2),
     dict(GN=1, GD=1, PD=4, rewards=(-2, -1, 0), nmax=3),
+    dict(GN=0, GD=1, PD=2, rewards=(-2, -1, 0, 1, 2), nmax=3),      # discount exactly 0: myopic values
+    dict(GN=1, GD=1, PD=2, rewards=(-2, -1, 0, 0), nmax=3),
+    dict(GN=0, GD=1, PD=4, rewards=(-3, -1, 0), nmax=3),
 ]
 
 
@@ -491,6 +497,12 @@ def make_cases(rng, n_wanted, tier):
                          rewards=f["rewards"], ID=rng.choice([2, 4]), init_on_abs=0.25,
                          p_implicit=0.12)
         rand_p0(rng, m)
+        # implicitly absorbing states: the rewards of their impossible (zero-probability) transitions are arbitrary
+        for s in impl_abs(m):
+            for a in range(K):
+                for t in range(m["N"]):
+                    if t != s:
+                        m["R"][s][a][t] = rng.choice([x for x in f["rewards"] if x != 0])
         beyond = rng.random() < 0.3 and add_beyond(rng, m, f["rewards"])
         # ghost policy rows at explicitly absorbing states (on their ghost-available actions)
         m["gw"] = [list(rng.choice(rows_at(m, s))) if m["abs"][s] else [0] * K for s in range(m["N"])]
@@ -501,7 +513,8 @@ def make_cases(rng, n_wanted, tier):
         # discount "1 - eps": discounted families only (the surrogate GN/GD and the alternative one are < 1)
         m["near1"] = 0
         m["g_kind"] = 0
-        if f["GN"] < f["GD"] and f["GD"] <= 4 and rng.random() < 0.3:
+        m["g0_kind"] = rng.choice([0, 1, 2])
+        if 0 < f["GN"] < f["GD"] and f["GD"] <= 4 and rng.random() < 0.3:
             m["near1"] = 1
             m["g_kind"] = rng.choice([1, 1, 2])
         listed, tinys = [], []
@@ -544,6 +557,10 @@ def make_cases(rng, n_wanted, tier):
         rep = dict(MDP_REPS[rng.randrange(len(MDP_REPS))])
         if beyond and rng.random() < 0.8:        # mostly on inferred state lists, where the successor is not listed
             rep = dict(rng.choice([r for r in MDP_REPS if not r["explicit_list"] and r["rep"] != "matrices"]))
+        if impl_abs(m) & gen.reach(m) and rng.random() < 0.6:
+            # distributions that list their zero-probability successors (and so expose the impossible rewards)
+            rep = dict(rng.choice([r for r in MDP_REPS if r["dist"] == "dict_zeros"]))
+        rep["absflag"] = rng.choice(["bool", "int", "npint"])
         if not rep["explicit_list"] and rep["rep"] == "matrices" and not gen.ghost_closed(m):
             rep["explicit_list"] = True      # the matrix builder of the harness needs every successor listed
         if m["hist"]:
@@ -555,7 +572,7 @@ def make_cases(rng, n_wanted, tier):
         sibling = None
         if not m["near1"] and rng.random() < 0.3:
             nonpos = all(x <= 0 for sa in m["R"] for row in sa for x in row)
-            options = [g for g in ([(1, 2), (3, 4)] + ([(1, 1)] * 2 if nonpos else [])) if g != (m["GN"], m["GD"])]
+            options = [g for g in ([(1, 2), (3, 4), (0, 1)] + ([(1, 1)] * 2 if nonpos else [])) if g != (m["GN"], m["GD"])]
             gn, gd = rng.choice(options)
             m2 = json.loads(json.dumps(m))
             m2["GN"], m2["GD"] = gn, gd
@@ -623,6 +640,18 @@ def make_policy(mdp, rows, prep, rng, extra_states=()):
 RELABEL = {"int": "str", "str": "tuple", "tuple": "int", "frozendict": "mixed", "mixed": "frozendict"}
 
 
+def build_for(inst, rng, rep1, discount=None, absflag="bool"):
+    """build.build_mdp plus the representation choices that are this driver's own: how a discount of exactly 0
+    is spelled, and the type is_absorbing answers with (bool / int / numpy integer)."""
+    if discount is None and inst["GN"] == 0:
+        discount = ZERO[inst.get("g0_kind", 0)]
+    b = build.build_mdp(inst, rng=rng, discount=discount, **rep1)
+    if absflag != "bool":
+        orig, conv = b.mdp.is_absorbing, ABSFLAG[absflag]
+        b.mdp.is_absorbing = lambda s: conv(bool(orig(s)))
+    return b
+
+
 def second_presentation(mm, rep, seed, first, discount=None):
     """The MDP of the case once more, for the same policy object: same action labels, state list and
     action list permuted by sp / ap, optionally other state labels."""
@@ -633,7 +662,7 @@ def second_presentation(mm, rep, seed, first, discount=None):
         rep2["rep"] = "quick"
     if rep.get("relabel"):
         rep2["labels"] = RELABEL[rep2["labels"]]
-    b = build.build_mdp(mm, rng=random.Random(seed), discount=discount, **rep2)
+    b = build_for(mm, random.Random(seed), rep2, discount, rep.get("absflag", "bool"))
     if b.alabel != first.alabel:
         raise TLCFailure("second presentation: action labels differ (driver bug)")
     b.mdp._state_list = [b.slabel[i - 1] for i in m["sp"]]
@@ -664,6 +693,7 @@ def run_real(case, wq, tn, preps, tamper=None, sib=None):
     wreal = real_weights(m, wq, tn)
     disc_real = NEAR1[m["g_kind"]] if m.get("near1") else None
     rep1 = {k: rep[k] for k in ("rep", "labels", "alabels", "explicit_list", "dist")}
+    absflag = rep.get("absflag", "bool")
     out = {}
 
     def evaluate(stages, stage, which, pol, bb):
@@ -682,7 +712,7 @@ def run_real(case, wq, tn, preps, tamper=None, sib=None):
         try:
             with warnings.catch_warnings():
                 warnings.simplefilter("ignore")
-                b = build.build_mdp(mm, rng=rng, discount=disc_real, **rep1)
+                b = build_for(mm, rng, rep1, disc_real, absflag)
                 rows = policy_rows(b, wreal, m["gw"])
                 b2, extra = None, []
                 if m.get("hist"):
@@ -701,8 +731,8 @@ def run_real(case, wq, tn, preps, tamper=None, sib=None):
             evaluate(stages, "reuse-on-permuted-mdp", "own", pol, b2)
             evaluate(stages, "reuse-back-on-first-mdp", "own", pol, b)
         if sm is not None:
-            g_own = float(F(m["GN"], m["GD"]))
-            g_sib = float(F(sm["GN"], sm["GD"]))
+            g_own = float(F(m["GN"], m["GD"])) if m["GN"] else ZERO[m.get("g0_kind", 0)]
+            g_sib = float(F(sm["GN"], sm["GD"])) if sm["GN"] else ZERO[sm.get("g0_kind", 0)]
             b.mdp.discount_rate = g_sib
             evaluate(stages, "same-mdp-object-after-discount-change", "sib", pol, b)
             b.mdp.discount_rate = g_own
@@ -715,7 +745,7 @@ def run_real(case, wq, tn, preps, tamper=None, sib=None):
                 try:
                     with warnings.catch_warnings():
                         warnings.simplefilter("ignore")
-                        bt = build.build_mdp(sm if which == "sib" else mm, rng=random.Random(seed), **rep1)
+                        bt = build_for(sm if which == "sib" else mm, random.Random(seed), rep1, None, absflag)
                 except Exception as e:               # noqa: BLE001
                     stages.append((f"short-lived-mdp-object-{t}", which, {"error": f"{type(e).__name__}: {e}"[:300]}))
                     continue
@@ -947,9 +977,12 @@ def judge_one(ctx, c, r, n, *, tamper=None, preps=None, sib=None):
                 for s in listed:
                     if not close(o["occ"][s], E["occ"][s], s in E["ox"], tol):
                         if s in E["implabs"]:
-                            drifts.append(("Occupancy-at-implicitly-absorbing-state",
-                                           {"case": digest(c), "state": s, "real": o["occ"][s], "machine": str(E["occ"][s])}))
-                            continue
+                            # msdm's definition of an absorbing state (all actions stay put with probability 1 and
+                            # reward 0, or flagged) makes this state absorbing: its occupancy is the arriving mass
+                            fail("state_occupancy-of-implicitly-absorbing-state",
+                                 f"state_occupancy[{s}]={o['occ'][s]} but exact {E['occ'][s]} (every action of state {s} "
+                                 f"stays put with probability 1 and reward 0: absorbing)")
+                            break
                         kind = "posinf-set" if (isinstance(E["occ"][s], float) or not math.isfinite(o["occ"][s])) else "state_occupancy"
                         fail(kind, f"state_occupancy[{s}]={o['occ'][s]} but exact {E['occ'][s]}")
                         break
@@ -1008,7 +1041,7 @@ def run(ctx):
     n = 2000 if ctx.tier == "quick" else 30000
     ctx.rule = ("(instance, policy) pairs: random members of MDPFam (1-3 non-absorbing + 0-2 explicitly absorbing states with "
                 "ghost dynamics and ghost policy rows, implicit absorbing states, 1-3 state-dependent actions, gamma in "
-                "{1/2,3/4,9/10,1}, PD in {2,4}, initial mass on absorbing states) x stochastic policies with weights in "
+                "{0,1/2,3/4,9/10,1} (0 spelled 0.0 / 0 / numpy 0), PD in {2,4}, initial mass on absorbing states, is_absorbing answering with bool / int / numpy int, impossible transitions with rewards) x stochastic policies with weights in "
                 "{0,1/3,1/2,2/3,1} (all of them, enumerated by TLC, when there are <= 25; 6 sampled otherwise) plus policies "
                 "with rare entries (weight 2^-30 in msdm, 'some weight > 0' in the spec); 30% of the discounted instances get "
                 "the discount 1-2^-20 or 0.999999 ('some discount < 1' in the spec); inferred state lists may leave "
@@ -1024,8 +1057,9 @@ def run(ctx):
         "float results of the <= 5x5 linear solves are compared with 1e-9*max(1,|exact|) slack; +-inf must match exactly; "
         "finite entries that depend on the size of a rare weight (decided by the spec: VExact/QExact/OccExact/InitExact) "
         "only have to be finite",
-        "action values at explicitly absorbing states and occupancies at implicitly absorbing states are not fixed by "
-        "the statement: compared against the reference machine only (DRIFT)"]
+        "action values at explicitly absorbing states are not fixed by the statement beyond 'an available action is not "
+        "worth -inf': their numbers are compared against the reference machine only (DRIFT); absorbing = flagged by "
+        "is_absorbing or, by msdm's documented definition, every action stays put with probability 1 and reward 0"]
     cases, rejected = make_cases(rng, n, ctx.tier)
     if rejected:
         ctx.skip("instance rejected by the 32-bit magnitude filter of the TLA+ oracle", rejected)
